@@ -480,11 +480,13 @@ def fail (env : Env) (cfg : Cfg) (acceptsAnswer : Bytes) (w : Wire) (pos : Nat) 
   let (st, ct, bodies) := overWire w r.status r.contentType r.body
   { status := st, contentType := ct, bodies := bodies, aborted := true, entered := List.range (pos + 1) }
 
-/-- `fail` when the response header map already carries a Content-Type (`preCT`: set earlier by a
-    middleware or by the failing handler itself through `c.Header`): `c.Header("Content-Type", …)` is
-    `http.Header.Set`, it replaces whatever was there — the earlier value plays no part -/
-def failH (_preCT : Option Bytes) (env : Env) (cfg : Cfg) (acceptsAnswer : Bytes) (w : Wire) (pos : Nat)
-    (call : Call) : Resp :=
+/-- `fail` after a prelude in the same handler chain: the response header map may already carry a
+    Content-Type (`preCT`: set earlier by a middleware or by the failing handler itself through `c.Header`)
+    and the chain may already be aborted (`abortedBefore`: a guard that calls `c.Abort()` and then
+    `c.Forbidden(err)`). `c.Header("Content-Type", …)` is `http.Header.Set`, it replaces whatever was
+    there; `c.Abort()` sets a flag that is already set. Neither plays any part in what is written. -/
+def failH (_preCT : Option Bytes) (_abortedBefore : Bool) (env : Env) (cfg : Cfg) (acceptsAnswer : Bytes) (w : Wire)
+    (pos : Nat) (call : Call) : Resp :=
   fail env cfg acceptsAnswer w pos call
 
 /-- as shipped (K06): `c.JSON` overwrites the header with `application/json; charset=utf-8` -/
